@@ -202,7 +202,7 @@ def build_harness(name):
     t0 = time.time()
     cover = []
     if os.environ.get("VERIF_COVER"):   # maintenance aid: statement coverage of /repo under the checks (GOCOVERDIR = $VERIF_COVER)
-        cover = ["-cover", "-coverpkg=github.com/samaritan-proxy/samaritan/..."]
+        cover = ["-cover", "-coverpkg=./...,github.com/samaritan-proxy/samaritan/..."]
     p = subprocess.run(["go", "build", "-tags", "verif"] + cover + ["-o", os.path.join(BIN_DIR, name), "./cmd/" + name],
                        cwd=HARNESS_DIR, env=goenv(), stdout=subprocess.PIPE, stderr=subprocess.STDOUT,
                        text=True)
